@@ -53,6 +53,17 @@ def linear(e, env=None):
     raise AnalysisError("non-linear index expression " + ast.unparse(e))
 
 
+def seed_pair_dominates(f):
+    """the seed pair's score is added on every path to every return that reports total_score (score-only and full mode)"""
+    g = CFG(f, lambda st: isinstance(st, ast.Raise))
+    dom = g.dominators()
+    adds = [n.id for n in g.nodes if n.kind == "stmt" and isinstance(n.ast, ast.AugAssign) and isinstance(n.ast.op, ast.Add)
+            and ast.unparse(n.ast.target) == "total_score" and ast.unparse(n.ast.value) == "score_matrix[code1[seq1_start], code2[seq2_start]]"]
+    rets = [n.id for n in g.nodes if n.kind == "stmt" and isinstance(n.ast, ast.Return) and n.ast.value is not None
+            and "total_score" in names_in(n.ast.value)]
+    return len(adds) == 1 and bool(rets) and all(adds[0] in dom.get(r, set()) for r in rets)
+
+
 def run(ctx):
     en = tracetab.enums(ctx)
     # the shared selectors/dispatch (cheap, keeps C09 self-contained)
@@ -120,10 +131,14 @@ def run(ctx):
            and "lower_diag, upper_diag = (min(band), max(band))" in at,
            "the band is the pair (min, max) of the given diagonals clipped to the table", ab.lineno)
     ft_calls = [c for c in calls(ab) if call_name(c) == "follow_trace"]
+    def _kw(c, name):
+        return next((ast.unparse(k.value) for k in c.keywords if k.arg == name), None)
+
     ctx.ob("R3.banded-traceback", BD, "align_banded", "follow_trace(trace_table, True, ..., lower_diag=lower_diag, upper_diag=upper_diag)",
-           bool(ft_calls) and ast.unparse(ft_calls[0].args[1]) == "True"
-           and any(k.arg == "lower_diag" and ast.unparse(k.value) == "lower_diag" for k in ft_calls[0].keywords)
-           and any(k.arg == "max_trace_count" and ast.unparse(k.value) == "max_number" for k in ft_calls[0].keywords),
+           bool(ft_calls) and all(
+               len(c.args) >= 4 and ast.unparse(c.args[1]) == "True" and ast.unparse(c.args[2]) == "i_start" and ast.unparse(c.args[3]) == "j_start"
+               and _kw(c, "lower_diag") == "lower_diag" and _kw(c, "upper_diag") == "upper_diag"
+               and _kw(c, "max_trace_count") == "max_number" and _kw(c, "state") == "state_start" for c in ft_calls),
            "the traceback must run in banded mode with the band and budget used for filling", ab.lineno)
     ctx.ob("R4.max-number-truncated", BD, "align_banded", "trace_list = trace_list[:max_number]", "trace_list = trace_list[:max_number]" in at,
            "", ab.lineno, nontrivial=False)
@@ -137,6 +152,32 @@ def run(ctx):
     ctx.ob("R3.start-states", BD, "align_banded", str(sorted(starts.items())),
            starts == {"m": "MATCH_STATE", "g1": "GAP_LEFT_STATE", "g2": "GAP_TOP_STATE"},
            "the traceback must start in the state of the table that holds the maximum", ab.lineno)
+    # whole-list start states: np.full(len(i_list), TraceState.X) - X follows the table the maximum was searched in
+    n_full = 0
+
+    def scan_block(block):
+        nonlocal n_full
+        table = None
+        for st in block:
+            if isinstance(st, ast.Assign):
+                for c in ast.walk(st.value):
+                    if isinstance(c, ast.Call) and call_name(c) in ("np.where", "np.max"):
+                        names = [n.id for n in ast.walk(c) if isinstance(n, ast.Name) and (n.id.endswith("table") or n.id == "scores")]
+                        if names:
+                            table = names[0]
+                if any(isinstance(t, ast.Name) and t.id == "state_list" for t in st.targets) and isinstance(st.value, ast.Call) \
+                        and call_name(st.value) == "np.full" and len(st.value.args) >= 2:
+                    stt = (dotted(st.value.args[1]) or "").split(".")[-1]
+                    want = {"m_table": "MATCH_STATE", "score_table": "NO_STATE", "scores": "NO_STATE"}.get(table)
+                    n_full += 1
+                    ctx.ob("R3.start-states", BD, "align_banded", f"maximum of {table} -> {stt}", want is not None and stt == want,
+                           f"starts found in {table} must begin the traceback in state {want}", st.lineno)
+            for fld in ("body", "orelse"):
+                if isinstance(getattr(st, fld, None), list) and not isinstance(st, (ast.For, ast.While)):
+                    scan_block(getattr(st, fld))
+
+    scan_block(ab.body)
+    ctx.floor("R3.whole-list-start-states", n_full, 3)
 
     # ---------------- gapped seed extension ---------------------------------------
     g = ctx.src(LG)
@@ -214,7 +255,7 @@ def run(ctx):
     t = ast.unparse(al)
     ctx.ob("R5.same-score-both-modes", LG, "align_local_gapped", "return total_score / Alignment(..., total_score)",
            "return total_score" in t and "Alignment([seq1, seq2], trace, total_score)" in t
-           and "total_score += score_matrix[code1[seq1_start], code2[seq2_start]]" in t,
+           and seed_pair_dominates(al),
            "score-only and full mode must report the same variable, including the seed pair", al.lineno)
     ar = g.func("_align_region")
     art = ast.unparse(ar)
@@ -248,7 +289,7 @@ def run(ctx):
                f"the {flag} extension must run under `{flag}` on the right slices in both code paths", au.lineno)
     ctx.ob("R5.same-score-both-modes", LU, "align_local_ungapped", "return total_score / Alignment(..., total_score)",
            "return total_score" in ut and "Alignment([seq1, seq2], trace, total_score)" in ut
-           and "total_score += score_matrix[code1[seq1_start], code2[seq2_start]]" in ut,
+           and seed_pair_dominates(au),
            "score-only and full mode must report the same variable, including the seed pair", au.lineno)
     ctx.ob("R5.seed-in-every-trace", LU, "align_local_ungapped", "np.arange(seq1_start + start_offset, seq1_start + stop_offset)",
            "start_offset = 0" in ut and "stop_offset = 1" in ut and "start_offset -= length" in ut and "stop_offset += length" in ut
@@ -258,6 +299,9 @@ def run(ctx):
 
 
 MUTANTS = [
+    Mutant("seed-pair-only-in-full-mode", LG, "    total_score += score_matrix[code1[seq1_start], code2[seq2_start]]\n", "    if not score_only:\n        total_score += score_matrix[code1[seq1_start], code2[seq2_start]]\n", "R5.same-score-both-modes", qualname="align_local_gapped"),
+    Mutant("banded-upper-diag-zero", BD, "            lower_diag=lower_diag, upper_diag=upper_diag\n", "            lower_diag=lower_diag, upper_diag=0\n", "R3.banded-traceback"),
+    Mutant("banded-local-affine-start-nostate", BD, "            state_list = np.full(\n                len(i_list), TraceState.MATCH_STATE, dtype=int\n            )", "            state_list = np.full(\n                len(i_list), TraceState.NO_STATE, dtype=int\n            )", "R3.start-states"),
     Mutant("banded-top-cell", BD, "            from_top  = score_table[i-1, j+1] + gap_penalty", "            from_top  = score_table[i-1, j] + gap_penalty", "R3.stencil"),
     Mutant("band-index", BD, "            j = seq_j - seq_i - lower_diag + 1\n            # Calculate the scores for possible transitions",
            "            j = seq_j - seq_i - lower_diag\n            # Calculate the scores for possible transitions", "R3.band-index-inverse"),
